@@ -568,11 +568,12 @@ class TaskDispatcher(object):
             task_name = node.task.name
 
             # node wait_run will be ready if there are nothing left to wait
-            if task_name in waiting_node.wait_run:
+            in_wait_run = task_name in waiting_node.wait_run
+            if in_wait_run:
                 waiting_node.wait_run.remove(task_name)
                 is_ready = not (waiting_node.wait_run or waiting_node.wait_run_calc)
-            # node wait_run_calc
-            else:
+            # node wait_run_calc (a task might be both a task_dep and calc_dep)
+            if (not in_wait_run) or task_name in waiting_node.wait_run_calc:
                 assert task_name in waiting_node.wait_run_calc
                 waiting_node.wait_run_calc.remove(task_name)
                 # calc_dep might add new deps that can be run without
